@@ -66,6 +66,10 @@ func genC06(c *Ctx) {
 		for _, n := range []int{0, 1, 2, 3, 5, 4*cc + 1} {
 			emit(n >= 2, fmt.Sprintf("cmap c=%d n=%d sync=1 mg=0 ptr=1 script=-", cc, n))
 			emit(n >= 2, fmt.Sprintf("cmap c=%d n=%d sync=0 mg=0 ptr=1 yield=1 script=-", cc, n))
+			// MapWhileFiltering with the concurrent option (kept and filtered elements interleaved, gated completion orders)
+			emit(n >= 2, fmt.Sprintf("cmap c=%d n=%d sync=1 mg=1 mwf=1 script=-", cc, n))
+			emit(n >= 2, fmt.Sprintf("cmap c=%d n=%d sync=1 mg=0 mwf=1 script=-", cc, n))
+			emit(n >= 2, fmt.Sprintf("cmap c=%d n=%d sync=0 mg=0 mwf=1 yield=1 script=-", cc, n))
 		}
 	}
 	// a source that goes quiet for a while in the middle (longer than any plausible idle time-out) and then continues
